@@ -266,6 +266,8 @@ pub struct FrontendCtx<'a, R: FileManager> {
     instantiation_depth: usize,
     // module item addresses whose import/export chain is being followed
     resolving_addresses: Vec<ModuleItemAddress>,
+    // nesting of typeof_expr evaluations
+    typeof_depth: usize,
     jsdoc_cache_by_file: BTreeMap<BffFileName, JsdocFileCache>,
 }
 
@@ -1111,6 +1113,7 @@ impl<'a, R: FileManager> FrontendCtx<'a, R> {
             type_application_stack: vec![],
             instantiation_depth: 0,
             resolving_addresses: vec![],
+            typeof_depth: 0,
             recursive_generic_uuids: BTreeSet::new(),
             jsdoc_cache_by_file: BTreeMap::new(),
         }
@@ -2290,7 +2293,28 @@ impl<'a, R: FileManager> FrontendCtx<'a, R> {
         }
     }
 
+    // an initializer that refers to itself (`enum A { X = A.X }`, `const a = { b: a.b }`) would be
+    // evaluated forever: bound the nesting and report it
     pub fn typeof_expr(&mut self, e: &Expr, as_const: bool, file: BffFileName) -> Res<Runtype> {
+        if self.typeof_depth >= 128 {
+            let anchor = Anchor {
+                f: file.clone(),
+                s: e.span(),
+            };
+            return self.error(
+                &anchor,
+                DiagnosticInfoMessage::AnyhowError(
+                    "Expression refers to itself or is nested too deeply".to_string(),
+                ),
+            );
+        }
+        self.typeof_depth += 1;
+        let res = self.typeof_expr_step(e, as_const, file);
+        self.typeof_depth -= 1;
+        res
+    }
+
+    fn typeof_expr_step(&mut self, e: &Expr, as_const: bool, file: BffFileName) -> Res<Runtype> {
         let anchor = Anchor {
             f: file.clone(),
             s: e.span(),
